@@ -489,6 +489,16 @@ class _FollowUps(object):
     NOTHING, SIGNAL_COMMENT, FRAME_COMMENT, BOARD_UNIT_COMMENT, GLOBAL_COMMENT = range(5)
 
 
+def convert_or_default(converter, value, default):
+    # type: (typing.Callable[[typing.Any], typing.Any], typing.Any, typing.Any) -> typing.Any
+    """Convert an attribute value that is interpreted as a number; a value of the wrong type yields the default."""
+    try:
+        return converter(value)
+    except (ValueError, TypeError, ArithmeticError):
+        logger.error("attribute value {} is not a number".format(value))
+        return default
+
+
 def load(f, **options):  # type: (typing.IO, **typing.Any) -> canmatrix.CanMatrix
     dbc_import_encoding = options.get("dbcImportEncoding", 'iso-8859-1')
     dbc_comment_encoding = options.get("dbcImportCommentEncoding", dbc_import_encoding)
@@ -971,7 +981,7 @@ def load(f, **options):  # type: (typing.IO, **typing.Any) -> canmatrix.CanMatri
             ecu.name = ecu.attributes.get("SystemNodeLongSymbol")[1:-1]
             ecu.del_attribute("SystemNodeLongSymbol")
     for frame in db.frames:
-        frame.cycle_time = int(float(frame.attributes.get("GenMsgCycleTime", 0)))
+        frame.cycle_time = convert_or_default(lambda value: int(float(value)), frame.attributes.get("GenMsgCycleTime", 0), 0)
         if frame.attributes.get("SystemMessageLongSymbol", None) is not None:
             frame.name = frame.attributes.get("SystemMessageLongSymbol")[1:-1]
             frame.del_attribute("SystemMessageLongSymbol")
@@ -984,14 +994,16 @@ def load(f, **options):  # type: (typing.IO, **typing.Any) -> canmatrix.CanMatri
         #     frame.extended = 1
 
         for signal in frame.signals:
+            default_value = signal.phys2raw(None)
             if "GenSigStartValue" in db.signal_defines \
                     and db.signal_defines["GenSigStartValue"].defaultValue is not None:
-                default_value = signal.phys2raw(float_factory(db.signal_defines["GenSigStartValue"].defaultValue))
-            else:
-                default_value = signal.phys2raw(None)
-            gen_sig_start_value = float_factory(signal.attributes.get("GenSigStartValue", default_value))
+                default_value = convert_or_default(
+                    lambda value: signal.phys2raw(float_factory(value)),
+                    db.signal_defines["GenSigStartValue"].defaultValue, default_value)
+            gen_sig_start_value = convert_or_default(
+                float_factory, signal.attributes.get("GenSigStartValue", default_value), default_value)
             signal.initial_value = (gen_sig_start_value * signal.factor) + signal.offset
-            signal.cycle_time = int(signal.attributes.get("GenSigCycleTime", 0))
+            signal.cycle_time = convert_or_default(int, signal.attributes.get("GenSigCycleTime", 0), 0)
             if signal.attribute("SystemSignalLongSymbol") is not None:
                 signal.name = signal.attribute("SystemSignalLongSymbol")[1:-1]
                 signal.del_attribute("SystemSignalLongSymbol")
